@@ -26,6 +26,9 @@ pub fn parse_raw3<'a>(
             n * 4
         );
 
+        if (n as usize).saturating_mul(4) > image_bytes.len() {
+            return Err(Error::UnexpectedEof);
+        }
         let mut reader = Cursor::new(image_bytes);
         let pixels = read_u32_array(&mut reader, n as usize)?;
 
@@ -66,32 +69,7 @@ pub fn parse_dxtn<'a>(
     let mut read_image = |i: usize| -> ParseResult<()> {
         let offset = offsets[i];
         let size = sizes[i];
-        if offset as usize >= original_input.len() {
-            error!(
-                "Offset of mipmap {} is out of bounds! {} >= {}",
-                i,
-                offset,
-                original_input.len()
-            );
-            return Err(Error::OutOfBounds {
-                offset: offset as usize,
-                size: 0,
-            });
-        }
-        if (offset + size) as usize > original_input.len() {
-            error!(
-                "Offset+size of mipmap {} is out of bounds! {} > {}",
-                i,
-                offset + size,
-                original_input.len()
-            );
-            return Err(Error::OutOfBounds {
-                offset: offset as usize,
-                size: size as usize,
-            });
-        }
-
-        let image_bytes = &original_input[offset as usize..(offset + size) as usize];
+        let image_bytes = get_bounded_slice(original_input, offset, size, i)?;
         // DXTn stores whole 4x4 blocks per row and column, so the block count is
         // derived from each dimension rounded up, not from the pixel count.
         let (width, height) = blp_header.mipmap_size(i);
